@@ -44,7 +44,7 @@ Print Assumptions C02_gate_sound_asis.
 (* On shapes without attribute hooks and without a callable helper of an exposed class, today's code
    (any variant with the two repairs) IS the property's behaviour, request for request. *)
 Theorem C02_asis_is_exact_on_plain_shapes : forall (is_private : text -> bool) q s r,
-  repaired q -> plain_shape s = true -> serve is_private q s r = serve is_private quirks_none s r.
+  repaired q -> indexed q -> plain_shape s = true -> serve is_private q s r = serve is_private quirks_none s r.
 Proof. exact plain_agrees. Qed.
 Print Assumptions C02_asis_is_exact_on_plain_shapes.
 
@@ -53,7 +53,7 @@ Print Assumptions C02_asis_is_exact_on_plain_shapes.
    and is answered with a result (nothing for oneway). *)
 Theorem C02_refused_or_served : forall (is_private : text -> bool) s k ow n,
   k <> RBatch ->
-  let r := {| r_kind := k; r_oneway := ow; r_names := [n] |} in
+  let r := (mkreq k ow [n]) in
   serve is_private quirks_none s r = ([], reply_refused ow) \/
   exists m a, serve is_private quirks_none s r = ([(m, a)], reply_ok ow).
 Proof. exact single_dichotomy. Qed.
@@ -66,7 +66,7 @@ Print Assumptions C02_refused_or_served.
    advertised: exposure that has no effect, never the other way round (C02_gate_sound). *)
 Theorem C02_exposed_served : forall (is_private : text -> bool) s k ow t m a,
   k <> RBatch -> may_serve is_private s k t m a ->
-  serve is_private quirks_none s {| r_kind := k; r_oneway := ow; r_names := [NStr t] |} = ([(m, a)], reply_ok ow).
+  serve is_private quirks_none s (mkreq k ow [NStr t]) = ([(m, a)], reply_ok ow).
 Proof. exact exposed_served. Qed.
 Print Assumptions C02_exposed_served.
 
@@ -85,27 +85,68 @@ Theorem C02_batch_refused_member_no_effect : forall (is_private : text -> bool) 
 Proof. exact refused_call_no_effect. Qed.
 Print Assumptions C02_batch_refused_member_no_effect.
 
+(* The shape of the request beyond the member name never matters: with surplus positional arguments of any
+   value and any keyword arguments a request is decided exactly like the request without them (every variant
+   that has the repairs, incl. today's code; for all five kinds) — so the theorems stated for well-formed
+   requests (mkreq) hold for every argument tuple — and an attribute request lacking its name (or its value)
+   is refused in every variant.  The handler's call form (arguments taken by index, no *vargs / **kwargs,
+   helpers with exactly one trailing only_exposed=True parameter) is re-extracted from the source each run. *)
+Theorem C02_surplus_arguments_ignored : forall (is_private : text -> bool) q s r,
+  indexed q -> serve is_private q s r = serve is_private q s (strip_surplus r).
+Proof. exact surplus_ignored. Qed.
+Print Assumptions C02_surplus_arguments_ignored.
+
+(* For every safe call form — arguments taken by index, with or without an argument-count check, separately for reads
+   and writes — the gate's decision does not depend on the surplus: the request is decided like the one without
+   surplus arguments, or it is refused with no effect.  Surplus never widens access. *)
+Theorem C02_surplus_never_widens_access : forall (is_private : text -> bool) q s r,
+  repaired q ->
+  serve is_private q s r = serve is_private q s (strip_surplus r) \/
+  serve is_private q s r = ([], reply_refused (r_oneway r)).
+Proof. exact surplus_never_widens. Qed.
+Print Assumptions C02_surplus_never_widens_access.
+
+Theorem C02_missing_arguments_refused : forall (is_private : text -> bool) q s r,
+  r_missing r = true -> r_kind r = RGet \/ r_kind r = RSet ->
+  serve is_private q s r = ([], reply_refused (r_oneway r)).
+Proof. exact missing_refused. Qed.
+Print Assumptions C02_missing_arguments_refused.
+
+Theorem C02_attr_arguments_indexed :
+  attr_requests_index_arguments = true /\ repaired quirks_asis /\ indexed quirks_asis /\ repaired quirks_none.
+Proof. exact (conj attr_arguments_indexed (conj repaired_asis (conj indexed_asis repaired_none))). Qed.
+Print Assumptions C02_attr_arguments_indexed.
+
+(* seeded change C02_6 as a variant of the model: *vargs lets __getattr__ (name, False) bind only_exposed=False —
+   the getter of an unexposed property runs, while the same request without the surplus argument is refused *)
+Theorem C02_star_args_widen_access_refuted :
+  serve is_private_attribute q_star_only w1_shape w7_request = ([(w_secret, AGet)], RepResult) /\
+  ~ explicitly_exposed is_private_attribute w1_shape w_secret /\
+  serve is_private_attribute q_star_only w1_shape (strip_surplus w7_request) = ([], RepError).
+Proof. exact star_args_refuted. Qed.
+Print Assumptions C02_star_args_widen_access_refuted.
+
 (* The advertised member lists are exactly the served names (shapes in which no instance attribute
    hides a class member; every property has a getter or a setter). *)
 Theorem C02_metadata_methods_exact : forall (is_private : text -> bool) s n,
   no_shadow s = true ->
   (In n (meta_methods is_private s) <->
-   exists m, serve is_private quirks_none s {| r_kind := RCall; r_oneway := false; r_names := [NStr n] |} = ([(m, ACall)], RepResult)).
+   exists m, serve is_private quirks_none s (mkreq RCall false [NStr n]) = ([(m, ACall)], RepResult)).
 Proof. exact meta_methods_exact. Qed.
 Print Assumptions C02_metadata_methods_exact.
 
 Theorem C02_metadata_methods_exact_asis : forall (is_private : text -> bool) s n,
   plain_shape s = true -> no_shadow s = true ->
   (In n (meta_methods is_private s) <->
-   exists m, serve is_private quirks_asis s {| r_kind := RCall; r_oneway := false; r_names := [NStr n] |} = ([(m, ACall)], RepResult)).
+   exists m, serve is_private quirks_asis s (mkreq RCall false [NStr n]) = ([(m, ACall)], RepResult)).
 Proof. exact meta_methods_exact_asis. Qed.
 Print Assumptions C02_metadata_methods_exact_asis.
 
 Theorem C02_metadata_attrs_exact : forall (is_private : text -> bool) s n,
   props_have_accessor s = true ->
   (In n (meta_attrs is_private s) <->
-   (exists m, serve is_private quirks_none s {| r_kind := RGet; r_oneway := false; r_names := [NStr n] |} = ([(m, AGet)], RepResult)) \/
-   (exists m, serve is_private quirks_none s {| r_kind := RSet; r_oneway := false; r_names := [NStr n] |} = ([(m, ASet)], RepResult))).
+   (exists m, serve is_private quirks_none s (mkreq RGet false [NStr n]) = ([(m, AGet)], RepResult)) \/
+   (exists m, serve is_private quirks_none s (mkreq RSet false [NStr n]) = ([(m, ASet)], RepResult))).
 Proof. exact meta_attrs_exact. Qed.
 Print Assumptions C02_metadata_attrs_exact.
 
@@ -198,14 +239,14 @@ Print Assumptions C02_attribute_hook_runs_refuted.
 
 (* non-vacuity *)
 Example C02_nonvacuous_served :
-  serve is_private_attribute quirks_none w3_shape {| r_kind := RCall; r_oneway := true; r_names := [NStr (m_name w_run)] |}
+  serve is_private_attribute quirks_none w3_shape (mkreq RCall true [NStr (m_name w_run)])
     = ([(w_run, ACall)], RepNone) /\
-  serve is_private_attribute quirks_none w3_shape {| r_kind := RGet; r_oneway := false; r_names := [NStr (m_name w_value)] |}
+  serve is_private_attribute quirks_none w3_shape (mkreq RGet false [NStr (m_name w_value)])
     = ([(w_value, AGet)], RepResult) /\
-  serve is_private_attribute quirks_none w3_shape {| r_kind := RSet; r_oneway := false; r_names := [NStr (m_name w_value)] |}
+  serve is_private_attribute quirks_none w3_shape (mkreq RSet false [NStr (m_name w_value)])
     = ([], RepError) /\
-  serve is_private_attribute quirks_none w3_shape {| r_kind := RBatch; r_oneway := false;
-      r_names := [NStr (m_name w_ping); NStr (m_name w_secret); NStr (m_name w_run)] |} = ([(w_ping, ACall)], RepError).
+  serve is_private_attribute quirks_none w3_shape (mkreq RBatch false
+      [NStr (m_name w_ping); NStr (m_name w_secret); NStr (m_name w_run)]) = ([(w_ping, ACall)], RepError).
 Proof. vm_compute. repeat split; reflexivity. Qed.
 Example C02_nonvacuous_metadata :
   no_shadow w3_shape = true /\ props_have_accessor w3_shape = true /\ plain_shape w3_shape = true /\
@@ -223,7 +264,7 @@ Qed.
    not by Pyro5's first-accessor rule — neither read, written nor advertised *)
 Example C02_nonvacuous_setter_only :
   explicitly_exposed is_private_attribute w6_shape w_lvl /\ ~ exposed_by_rule is_private_attribute w6_shape w_lvl /\
-  serve is_private_attribute quirks_asis w6_shape {| r_kind := RSet; r_oneway := false; r_names := [NStr (m_name w_lvl)] |} = ([], RepError) /\
+  serve is_private_attribute quirks_asis w6_shape (mkreq RSet false [NStr (m_name w_lvl)]) = ([], RepError) /\
   meta_attrs is_private_attribute w6_shape = [].
 Proof.
   split. { left. split; vm_compute; reflexivity. }
